@@ -12,3 +12,8 @@ MUTANTS = [
     ("subphase-le", "vsg/rule_list.py", "            if oRule.subphase == iSubPhase:", "            if oRule.subphase <= iSubPhase:"),
     ("check-skip-disabled-filter", "vsg/rule_list.py", "                lRules = filter_out_disabled_rules(lRules)\n\n                for oRule in lRules:", "                for oRule in lRules:"),
 ]
+
+MUTANTS += [
+    # the seeded change seeded/C08_indent_after_phase3: indices differ only when phase 3 is skipped
+    ("fix-indent-after-phase3", "vsg/rule_list.py", "            # Update indents before checking indent\n            if phase == 4:\n                self.oVhdlFile.set_token_indent()\n\n", ""),
+]
